@@ -339,6 +339,27 @@ def eval_table_case(case, fail):
                         fail('bp_bayes_update', f'{direction} qubit {i} c={corr[i]}: '
                              f'{got_u[i]} != {ref_u}')
                         break
+    # the conditional update as the decoder really applies it: decode with
+    # channel_update on, then read the prior the X decoder was handed
+    if interior and code.is_css:
+        from panqec.decoders import BeliefPropagationOSDDecoder
+        rs2 = np.random.default_rng(case['rseed'] + 9)
+        bpu = BeliefPropagationOSDDecoder(code, em, p, max_bp_iter=5, osd_order=0, channel_update=True)
+        err = (rs2.random(2 * n) < 0.15).astype(np.uint8)
+        full = np.asarray(bpu.decode(code.measure_syndrome(err)))
+        zc = full[n:]
+        got_x = np.asarray(bpu.x_decoder.channel_probs, float)
+        for i in range(n):
+            if zc[i] == 1:
+                den = want['Z'][i] + want['Y'][i]
+                ref_u = want['Y'][i] / den if den > 0 else None
+            else:
+                den = 1 - want['Z'][i] - want['Y'][i]
+                ref_u = want['X'][i] / den if den > 0 else None
+            if ref_u is not None and abs(got_x[i] - ref_u) > 1e-9:
+                fail('bp_bayes_update', f'decode with channel_update: X decoder prior of qubit {i} '
+                     f'(Z correction {int(zc[i])}) is {got_x[i]}, P(X flip | Z outcome) = {ref_u}')
+                break
     n_def = 0
     if name is not None:
         n_def = sum(1 for loc in code.qubit_coordinates
